@@ -16,9 +16,9 @@
                 r is Proceed && *final(state) == *old(state) && !na_consumed(*old(self), *final(self))
                 && final(self).status == (if sig_spec(old(state).mem[old(state).pc as int]) == Some(SignificantInstr::Return)
                                           { Status::WaitForAction } else { Status::Finish }),
-            pre_status(*old(self), *old(state)) matches Status::StepOver { return_addr, depth } ==> !(old(state).pc == return_addr && depth == 0) ==>
+            pre_status(*old(self), *old(state)) matches Status::StepOver { return_addr, depth, by_jump } ==> !stepover_reached(pre_status(*old(self), *old(state)), *old(state)) ==>
                 r is Proceed && *final(state) == *old(state) && !na_consumed(*old(self), *final(self))
-                && final(self).status == (Status::StepOver { return_addr, depth: depth_after(depth, old(state).mem[old(state).pc as int]) }),
+                && final(self).status == stepover_next(return_addr, depth, by_jump, *old(state)),
             // ---- C11/C16: paused (breakpoint, HALT, PC outside user space, step finished): a command is consumed
             //      (or the script has ended and the debugger detaches) before anything else happens
             (pre_status(*old(self), *old(state)) is WaitForAction || stepover_reached(pre_status(*old(self), *old(state)), *old(state))) ==>
